@@ -300,7 +300,7 @@ def gen_program_c09(rng, name, world, tier):
             pres["int"] = True
             prog.append({"op": "fill.call", "target": system, "present": pres, "flags": flags, "ref": ref, "ref_what": "integer-typed columns", "expect_ok": True})
         elif v in ("path", "abspath") and system != "triclinic":
-            prog.append({"op": "fill.call", "target": {"relpath": f"{world['cwd']}/my_relations_{name.lower()}.txt", "abs": v == "abspath"},
+            prog.append({"op": "fill.call", "target": {"relpath": f"{world['cwd']}/{rng.choice(['relations.txt', 'my_relations.txt'])}", "abs": v == "abspath"},
                          "present": pres, "flags": flags, "ref": ref, "ref_what": "user-written relations file equivalent to the packaged ones", "expect_ok": True})
         elif v == "nopath":
             prog.append({"op": "fill.call", "target": {"relpath": f"{world['cwd']}/no_such_relations.txt", "abs": rng.random() < 0.5},
@@ -502,7 +502,7 @@ def gen_scenario(prop, seed, tier, faults_enabled=None, nclients=None, segments_
     if nclients is None:
         nclients = {"C12": rng.choice([1, 1, 2]), "C14": rng.choice([1, 2, 2, 2, 3]),
                     "C15": rng.choice([1, 2, 2]), "C19": rng.choice([1, 2]), "C17": rng.choice([1, 2, 2]),
-                    "C09": rng.choice([1, 1, 2])}.get(prop, 1)
+                    "C09": rng.choice([1, 2, 2])}.get(prop, 1)
     names = ["A", "B", "C"][:nclients]
     worlds = {}
     for n in names:
@@ -551,7 +551,7 @@ def gen_scenario(prop, seed, tier, faults_enabled=None, nclients=None, segments_
             if op["op"] == "cli.geotherm":
                 text = "  ".join(op["columns"]) + "\n" + "\n".join("  ".join(repr(float(x)) for x in row) for row in op["points"]) + "\n"
                 extra.append({"client": n, "path": f"{w['cwd']}/{op['geotherm']}", "text": text})
-            if op["op"] == "fill.call" and isinstance(op["target"], dict) and "my_relations" in op["target"]["relpath"]:
+            if op["op"] == "fill.call" and isinstance(op["target"], dict) and "relations.txt" in op["target"]["relpath"] and "no_such" not in op["target"]["relpath"]:
                 if not any(e["path"] == op["target"]["relpath"] for e in extra):
                     extra.append({"client": n, "path": op["target"]["relpath"], "text": W.relations_text(w["static"]["system"], rng)})
     schedule = [n for n in names for _ in programs[n]]
